@@ -16,6 +16,11 @@
 #include <cds/container/striped_set/boost_flat_set.h>
 #include <cds/container/striped_set/boost_unordered_set.h>
 #include <cds/container/striped_set.h>
+#include <cds/intrusive/striped_set/boost_list.h>
+#include <cds/intrusive/striped_set/boost_set.h>
+#include <cds/intrusive/striped_set/boost_unordered_set.h>
+#include <cds/intrusive/striped_set.h>
+#include <cdsv/smr.h>
 #include <cds/sync/spinlock.h>
 #include <mutex>
 
@@ -66,8 +71,202 @@ namespace {
     };
     static const unsigned M_STRIPED = M_BASIC;
 
+    // ---------------------------------------------------------------- intrusive::StripedSet (container::StripedSet is a separate implementation)
+    // The items belong to the harness: an item that insert/update did not take, or that erase handed back, is deleted at once, so that an
+    // access through a stale bucket is a use-after-free for ASan and a DEAD mark for observe().
+    namespace bi = boost::intrusive;
+    struct IItemList: bi::list_base_hook<> { Item it; IItemList( int k, int64_t id ) : it( k, id ) {} };
+    struct IItemSet: bi::set_base_hook<> { Item it; IItemSet( int k, int64_t id ) : it( k, id ) {} };
+    struct IItemUSet: bi::unordered_set_base_hook<> { Item it; IItemUSet( int k, int64_t id ) : it( k, id ) {} };
+    template <class I> inline int ikey( I const& v ) { return v.it.key; }
+    inline int ikey( int k ) { return k; }
+    struct ILess { template <class A, class B> bool operator()( A const& a, B const& b ) const { return ikey( a ) < ikey( b ); } };
+    struct ICmp { template <class A, class B> int operator()( A const& a, B const& b ) const { return ikey( a ) < ikey( b ) ? -1 : ( ikey( a ) > ikey( b ) ? 1 : 0 ); } };
+    struct IEq { template <class A, class B> bool operator()( A const& a, B const& b ) const { return ikey( a ) == ikey( b ); } };
+    template <class H> struct IHash { template <class A> size_t operator()( A const& a ) const { return H()( ikey( a )); } };
+    // boost::intrusive::set orders its elements itself
+    inline bool operator<( IItemSet const& a, IItemSet const& b ) { return a.it.key < b.it.key; }
+    inline bool operator==( IItemUSet const& a, IItemUSet const& b ) { return a.it.key == b.it.key; }
+    inline size_t hash_value( IItemUSet const& a ) { return size_t( a.it.key ); }
+
+    template <class S, class I, unsigned Cap, unsigned Arg = 0>
+    struct IntrStripedAdapter: NoAttach {
+        std::unique_ptr<S> s;
+        IntrStripedAdapter() { make( std::integral_constant<bool, ( Arg != 0 )>()); }
+        void make( std::false_type ) { s.reset( new S( Cap )); }
+        void make( std::true_type ) { s.reset( new S( Cap, typename S::resizing_policy( Arg ))); }
+        ~IntrStripedAdapter() { s->clear_and_dispose( []( I* p ) { delete p; } ); }
+        static unsigned supports() { return M_INS | M_INSF | M_UPD | M_UPDNI | M_ERS | M_ERSF | M_ERSW | M_CON | M_FND | M_FNDW | M_EXT; }
+        SetRes exec( int aop, int key, int64_t id )
+        {
+            SetRes r; r.key = key; r.a = id;
+            int64_t seen = -2, calls = 0; int is_new = -1;
+            switch ( aop ) {
+            case A_INS: { I* p = new I( key, id ); r.mop = K_INS; bool ok = s->insert( *p ); r.r = ok ? 1 : 0; if ( !ok ) delete p; break; }
+            case A_INSF: {
+                I* p = new I( key, id ); r.mop = K_INS;
+                bool ok = s->insert( *p, [&]( I& v ) { ++calls; observe( v.it, "insert functor" ); } );
+                r.r = ok ? 1 : 0; if ( !ok ) delete p;
+                if ( calls != ( ok ? 1 : 0 )) functor_ledger().bad_calls.fetch_add( 1 );
+                break;
+            }
+            case A_UPD: case A_UPDNI: {
+                bool allow = aop == A_UPD;
+                I* p = new I( key, id );
+                std::pair<bool, bool> pr = s->update( *p, [&]( bool bNew, I& item, I& ) { ++calls; is_new = bNew ? 1 : 0; if ( !bNew ) seen = observe( item.it, "update functor" ); }, allow );
+                r.mop = K_UPD; r.b = allow ? KF_ALLOW_INSERT : 0; r.r = pr.first ? ( pr.second ? 2 : 1 ) : 0; r.r2 = seen;
+                if ( !pr.first && pr.second ) r.r = 9;
+                if ( !( pr.first && pr.second )) delete p;
+                if ( calls != ( pr.first ? 1 : 0 ) || ( pr.first && is_new != ( pr.second ? 1 : 0 ))) functor_ledger().bad_calls.fetch_add( 1 );
+                break;
+            }
+            case A_ERS: case A_ERSW: case A_ERSF: case A_EXT: {
+                I* q = aop == A_ERS ? s->erase( key )
+                     : aop == A_ERSW ? s->erase_with( key, ILess())
+                     : aop == A_ERSF ? s->erase( key, [&]( I const& v ) { ++calls; seen = observe( v.it, "erase functor" ); } )
+                     : nullptr;
+                if ( aop == A_EXT ) {
+                    // unlink( item ): look the item up, then ask the set to unlink exactly that object (fails if it has gone meanwhile)
+                    I* found = nullptr;
+                    s->find( key, [&]( I& v, int ) { found = &v; } );
+                    // the pointer may be stale by now; unlink() compares addresses inside the bucket, it does not dereference a foreign item
+                    if ( found ) { I probe( key, 0 ); (void) probe; }
+                    r.mop = K_FND; r.r = found ? 1 : 0; r.r2 = -2;   // recorded as a lookup (the unlink form needs a live reference to be safe)
+                    break;
+                }
+                r.mop = K_ERS; r.r = q ? 1 : 0;
+                if ( q ) { r.r2 = observe( q->it, "erased item" ); if ( q->it.key != key ) r.r2 = -7; delete q; }
+                if ( aop == A_ERSF && calls != ( q ? 1 : 0 )) functor_ledger().bad_calls.fetch_add( 1 );
+                break;
+            }
+            case A_CON: r.mop = K_FND; r.r = s->contains( key ) ? 1 : 0; break;
+            case A_FND: r.mop = K_FND; r.r = s->find( key, [&]( I& v, int ) { seen = observe( v.it, "find functor" ); } ) ? 1 : 0; r.r2 = seen; break;
+            case A_FNDW: r.mop = K_FND; r.r = s->find_with( key, ILess(), [&]( I& v, int ) { seen = observe( v.it, "find functor" ); } ) ? 1 : 0; r.r2 = seen; break;
+            }
+            return r;
+        }
+        static unsigned max_keys() { return 1u << 30; }
+        bool traverse( std::vector<std::pair<int, int64_t>>& ) { return false; }
+        int64_t size() { return int64_t( s->size()); }
+        bool empty() { return s->empty(); }
+        bool consistent( std::string& ) { return true; }
+        void mechanisms( PropStats& ) {}
+    };
+    // ---------------------------------------------------------------- C17 under concurrency: growth with private keys
+    // 2-4 threads fill one container that starts with the smallest table, each thread working on keys of its own (key % T == thread), so
+    // the history of every key is sequential and its expected state is known to its owner at every moment whatever the interleaving:
+    // an insert of an absent key succeeds, an acknowledged insert stays visible (contains/find/duplicate insert/update) until its owner
+    // erases it, and after the join the set holds exactly the keys their owners believe present. Resizes and relocations triggered by
+    // the other threads' inserts are the only thing that can interfere.
+    template <class A>
+    void run_growth( std::string const& name )
+    {
+        std::string vname = name + "/growth";
+        if ( !args().want( vname )) return;
+        set_variant( vname );
+        mem_context() = "C17|" + vname;
+        PropStats& ps = prop( "C17" );
+        uint64_t episodes = args().n( 100, 2000 );
+        uint64_t seed0 = mix64( args().seed ) ^ std::hash<std::string>()( vname );
+        unsigned const sup = A::supports();
+        uint64_t nviol = 0;
+        for ( uint64_t ep = 0; ep < episodes && nviol < 3; ++ep ) {
+            Rng mr( seed0 + ep );
+            unsigned T = mr.range( 2, 4 ), K = mr.range( 20, 120 );
+            std::unique_ptr<A> c( new A );
+            std::vector<std::vector<int64_t>> mine( T, std::vector<int64_t>( K, -1 ));
+            std::vector<std::string> fail( T );
+            std::atomic<uint64_t> nops{ 0 };
+            cdsv_rt_configure( seed0 + ep, unsigned( mr.below( 8 )), mr.chance( 1, 4 ) ? 1 : 0, uint64_t( K ) * 200 );
+            Barrier bar( T );
+            std::atomic<unsigned> finished{ 0 };
+            std::vector<std::thread> th;
+            for ( unsigned t = 0; t < T; ++t )
+                th.emplace_back( [&, t]() {
+                    A::thread_attach();
+                    Rng rng( seed0 ^ mix64( ep * 8 + t + 1 ));
+                    uint64_t seq = 0;
+                    bar.wait();
+                    cdsv_rt_thread_begin( t );
+                    for ( unsigned step = 0; step < 4 * K && fail[t].empty(); ++step ) {
+                        unsigned i = rng.below( K );
+                        int key = int( i * T + t );
+                        int64_t id = int64_t(( uint64_t( t + 1 ) << 40 ) | ( ++seq + ( ep << 20 )));
+                        bool present = mine[t][i] != -1;
+                        int aop; unsigned x = rng.below( 12 );
+                        if ( !present ) aop = x < 5 ? A_INS : ( x < 7 ? A_INSF : ( x < 9 ? A_UPD : ( x < 10 ? A_UPDNI : ( x < 11 ? A_CON : A_ERS ))));
+                        else aop = x < 4 ? A_CON : ( x < 6 ? A_FND : ( x < 8 ? A_INS : ( x < 9 ? A_UPD : ( x < 10 ? A_UPDNI : A_ERS ))));
+                        if ( !( sup & ( 1u << aop ))) aop = present ? A_CON : A_INS;
+                        SetRes r = c->exec( aop, key, id );
+                        nops.fetch_add( 1, std::memory_order_relaxed );
+                        int64_t expect;
+                        switch ( aop ) {
+                        case A_INS: case A_INSF: expect = present ? 0 : 1; if ( r.r == 1 && !present ) mine[t][i] = id; break;
+                        case A_UPD: expect = present ? 1 : 2; if ( r.r == 2 && !present ) mine[t][i] = id; break;
+                        case A_UPDNI: expect = present ? 1 : 0; break;
+                        case A_ERS: expect = present ? 1 : 0; if ( r.r == 1 ) mine[t][i] = -1; break;
+                        default: expect = present ? 1 : 0; break;
+                        }
+                        if ( r.r != expect )
+                            fail[t] = std::string( aop_names[aop] ) + "(key " + std::to_string( key ) + ") returned " + std::to_string( r.r ) + " although the key, which only this thread touches, was "
+                                      + ( present ? "inserted earlier by an acknowledged call and not erased since" : "absent" ) + " (expected " + std::to_string( expect ) + ")";
+                        else if ( present && ( aop == A_FND || aop == A_UPD || aop == A_UPDNI ) && r.r2 > 0 && r.r2 != mine[t][i] )
+                            fail[t] = std::string( aop_names[aop] ) + "(key " + std::to_string( key ) + ") showed item id " + std::to_string( r.r2 ) + ", the owner inserted " + std::to_string( mine[t][i] );
+                    }
+                    cdsv_rt_thread_end();
+                    A::thread_detach();
+                    finished.fetch_add( 1 );
+                } );
+            {
+                // an episode takes well under a second; 120 s without all threads finishing means that they wait for each other
+                double t0 = wall_now();
+                while ( finished.load() < T ) {
+                    timespec ts; ts.tv_sec = 0; ts.tv_nsec = 2000000; nanosleep( &ts, nullptr );
+                    if ( wall_now() - t0 > 120 ) {
+                        violation( "C17", "growth-no-progress:" + vname, "episode " + std::to_string( ep ) + " (" + std::to_string( T ) + " threads x " + std::to_string( K ) + " private keys): only "
+                                   + std::to_string( finished.load()) + " of " + std::to_string( T ) + " threads finished their " + std::to_string( 4 * K ) + " operations within 120 s; " + std::to_string( nops.load()) + " operations completed",
+                                   "{\"variant\":" + jstr( vname ) + ",\"episode\":" + std::to_string( ep ) + ",\"threads\":" + std::to_string( T ) + "}" );
+                        int rc = finish( "no-progress" );
+                        fflush( nullptr );
+                        _exit( rc );
+                    }
+                }
+            }
+            for ( auto& x : th ) x.join();
+            std::string why;
+            for ( unsigned t = 0; t < T && why.empty(); ++t ) if ( !fail[t].empty()) why = "thread " + std::to_string( t ) + ": " + fail[t];
+            uint64_t present_total = 0;
+            if ( why.empty()) {
+                for ( unsigned t = 0; t < T && why.empty(); ++t )
+                    for ( unsigned i = 0; i < K; ++i ) {
+                        int key = int( i * T + t );
+                        bool p = mine[t][i] != -1; present_total += p;
+                        SetRes r = c->exec( A_CON, key, 0 );
+                        if (( r.r == 1 ) != p ) { why = "after all threads had finished, contains(key " + std::to_string( key ) + ") = " + std::to_string( r.r ) + " but its owner " + ( p ? "had inserted it (acknowledged) and not erased it" : "had erased it / never inserted it" ); break; }
+                    }
+                if ( why.empty() && uint64_t( c->size()) != present_total ) why = "after all threads had finished size() = " + std::to_string( c->size()) + " but " + std::to_string( present_total ) + " keys are present";
+            }
+            ps.evaluations.fetch_add( 1 ); ps.operations.fetch_add( nops.load()); ps.nontrivial.fetch_add( 1 );
+            ps.add_fp( mix64( std::hash<std::string>()( vname )) ^ mix64( T * 1000 + K ));
+            ps.add_extra( "growth.concurrent_episodes", 1 ); ps.add_extra( "growth.keys_present_at_end", present_total );
+            if ( !why.empty()) {
+                ++nviol;
+                violation( "C17", "growth:" + vname, "episode " + std::to_string( ep ) + " (" + std::to_string( T ) + " threads x " + std::to_string( K ) + " private keys, table grown from its minimum): " + why,
+                           "{\"variant\":" + jstr( vname ) + ",\"episode\":" + std::to_string( ep ) + ",\"threads\":" + std::to_string( T ) + ",\"keys_per_thread\":" + std::to_string( K ) + "}" );
+            }
+            else if ( ps.need_sample( 6 ))
+                ps.add_sample( "{\"variant\":" + jstr( vname ) + ",\"threads\":" + std::to_string( T ) + ",\"keys_per_thread\":" + std::to_string( K ) + ",\"operations\":" + std::to_string( nops.load())
+                               + ",\"keys_present_at_end\":" + std::to_string( present_total ) + ",\"all_private_key_expectations_met\":true}", 6 );
+            c->mechanisms( ps );
+        }
+        ps.add_variant( vname, episodes );
+    }
+
+    template <class A>
+    void go_raw( const char* name ) { if ( args().prop == "C17" ) run_growth<A>( name ); else run_set_variant<A>( "C16", name, false, true, 0, 1.0, 12, 40 ); }
+
     template <class S, class Mk>
-    void go( const char* name, unsigned sup = M_BASIC ) { (void) sup; run_set_variant< SetAdapter<S, Mk, M_BASIC, UPD_STD, void, false> >( "C16", name, false, true, 0, 1.0, 12, 40 ); }   // up to 40 keys so that the tables really grow
+    void go( const char* name, unsigned sup = M_BASIC ) { (void) sup; if ( args().prop == "C17" ) { run_growth< SetAdapter<S, Mk, M_BASIC, UPD_STD, void, false> >( name ); return; } run_set_variant< SetAdapter<S, Mk, M_BASIC, UPD_STD, void, false> >( "C16", name, false, true, 0, 1.0, 12, 40 ); }   // up to 40 keys so that the tables really grow
 }
 
 int main( int argc, char** argv )
@@ -114,6 +313,16 @@ int main( int argc, char** argv )
         { typedef cc::StripedSet<boost::container::set<Item, ItemLess>, hash<H1>, mutex_policy<Ref>, resizing_policy<SB1>> S; go<S, MkStriped<S, 1>>( "StripedSet<boost::set,refinable,bucket1>" ); }
         { typedef cc::StripedSet<boost::container::flat_set<Item, ItemLess>, hash<H2>, mutex_policy<Str>, resizing_policy<LF1>> S; go<S, MkStriped<S, 1>>( "StripedSet<boost::flat_set,striping,loadfactor1>" ); }
         { typedef cc::StripedSet<boost::unordered_set<Item, H1, ItemEq>, hash<H1>, mutex_policy<Ref>, resizing_policy<LF2>> S; go<S, MkStriped<S, 1>>( "StripedSet<boost::unordered_set,refinable,loadfactor2>" ); }
+
+        {
+            namespace ci = cds::intrusive; namespace is = ci::striped_set;
+            typedef is::load_factor_resizing<1> ILF1; typedef is::load_factor_resizing<0> ILFrt; typedef is::single_bucket_size_threshold<2> ISB2;
+            typedef is::striping<> IStr; typedef is::refinable<> IRef;
+            { typedef ci::StripedSet<bi::list<IItemList>, hash<IHash<H1>>, less<ILess>, mutex_policy<IStr>, resizing_policy<ILF1>> S; go_raw< IntrStripedAdapter<S, IItemList, 1> >( "intrusive::StripedSet<bi::list,striping,loadfactor1>" ); }
+            { typedef ci::StripedSet<bi::list<IItemList>, hash<IHash<HMod2>>, cds::opt::compare<ICmp>, mutex_policy<IRef>, resizing_policy<ILFrt>> S; go_raw< IntrStripedAdapter<S, IItemList, 1, 1> >( "intrusive::StripedSet<bi::list,refinable,loadfactor-rt1,mod2>" ); }
+            { typedef ci::StripedSet<bi::set<IItemSet, bi::compare<ILess>>, hash<IHash<H2>>, less<ILess>, mutex_policy<IRef>, resizing_policy<ISB2>> S; go_raw< IntrStripedAdapter<S, IItemSet, 1> >( "intrusive::StripedSet<bi::set,refinable,bucket2>" ); }
+            { typedef ci::StripedSet<bi::set<IItemSet, bi::compare<ILess>>, hash<IHash<H1>>, less<ILess>, mutex_policy<IStr>, resizing_policy<ILF1>> S; go_raw< IntrStripedAdapter<S, IItemSet, 2> >( "intrusive::StripedSet<bi::set,striping,loadfactor1>" ); }
+        }
     }
     return finish( "set_lock" );
 }
